@@ -130,6 +130,14 @@ def stage_cases(fmt, tier, rng, tab):
     for (w, q) in g_ffff_stage(fmt, tab, rng):
         cs.append((w, q, 0)); cs.append((w, q, 1))
     qlo, qhi = (-342, 308) if fmt == 'f64' else (-65, 38)
+    # every table entry with the significands that make the first 64x64 product degenerate: powers of
+    # two (low word of the product is 0 or 2^63), small integers, all-ones, 10^k
+    smalls = [1, 2, 3, 5, 7, 9, 10, 11, 25, 99, 125, 1000, 12345, M64, M64 - 1, (1 << 63) - 1, 10 ** 18, 10 ** 19 - 1]
+    for q in range(qlo - 1, qhi + 2):
+        for w in smalls + [1 << k for k in (1, 2, 3, 10, 31, 32, 33, 52, 53, 54, 62, 63)] + [(1 << rng.range(1, 63)) + 1, 10 ** rng.range(1, 18)]:
+            cs.append((w, q, 0))
+            if rng.below(4) == 0:
+                cs.append((w, q, 1))
     # fence posts and randoms
     for q in [qlo - 1, qlo, qlo + 1, qhi - 1, qhi, qhi + 1, -4096, -4097, 4095, 4096, -0x8000, 0x7fff, -2 ** 31, 2 ** 31 - 1, 0, -27, -28, 55, 56, -350, -351, 310]:
         for w in [1, 2, 9, 10 ** 18, 10 ** 19 - 1, 1 << 63, (1 << 63) + 1, M64 - 1, (1 << 53) + 1, (1 << 24) + 1, rng.bits(64) | 1]:
@@ -217,12 +225,15 @@ def check_c11(res, tier, rng):
                 stats[kind + '/' + out.split()[0]] += 1
                 bad = 'stage neither declined nor returned a float: %s' % out
             if bad:
-                nviol += 1
-                if nviol <= 60:
+                kk = known_c11(kind, w, q, t, out)
+                is_listed = kk is not None and any(kk == x['key'] and 'C11' in x['props'] for x in res.known)
+                if not is_listed:
+                    nviol += 1
+                if is_listed or nviol <= 60:
                     res.violation('C11 %s: %s' % (kind, bad),
                                   {'case': lines[k], 'implementation': kind, 'cfg': key[0], 'build': key[1], 'observed': out, 'what': bad,
                                    'replay_cmd': "echo '%s' | %s" % (lines[k], impl_exe(*key))},
-                                  key=known_c11(kind, w, q, t, out))
+                                  key=kk)
             # refinement: same answer, or the implementation declines
             if out != mo and not bad:
                 impl_declined = out.startswith('E ') and int(out.split()[2]) < 0
